@@ -113,7 +113,14 @@ FAILING = {
     "returns None": "from nada_dsl import *\n\ndef nada_main():\n    return None\n",
     "output of a non-Nada value": "from nada_dsl import *\n\ndef nada_main():\n    p = Party(name='P')\n    return [Output(5, 'o', p)]\n",
     "KeyError message": "from nada_dsl import *\n\ndef nada_main():\n    return {}['missing']\n",
+    "AttributeError while tracing": "from nada_dsl import *\n\ndef nada_main():\n    p = Party(name='P')\n    a = SecretInteger(Input(name='a', party=p))\n"
+                                    "    return [Output(a.no_such_method(), 'o', p)]\n",
+    "missing object field": "from nada_dsl import *\n\ndef nada_main():\n    p = Party(name='P')\n    a = SecretInteger(Input(name='a', party=p))\n"
+                            "    o = Object.new({'k': a})\n    return [Output(o.missing, 'o', p)]\n",
 }
+
+REASONS_MUST_AGREE = {"raises", "raises without a message", "bare assert", "branches on a secret", "multi-line message", "returns a non-output",
+                      "output of a non-Nada value", "KeyError message", "AttributeError while tracing", "missing object field"}
 
 # file names the property quantifies over: coinciding with imported / standard-library / package modules, dots, dashes
 FILE_NAMES = ["json.py", "nada_dsl.py", "os.py", "base64.py", "typing.py", "timer.py", "compile.py", "temp_program.py", "my.prog.py",
@@ -205,6 +212,7 @@ def run(res, tier):
             path = os.path.join(d, "failing_prog.py")
             with open(path, "w", encoding="utf-8") as f:
                 f.write(src)
+            reasons = {}
             for args, envx in (([path], {}), (["-s", base64.b64encode(src.encode()).decode()], {}), ([path], {"NADA_TIMER": "1"})):
                 rc, out = cli(args, d, envx)
                 evals += 1
@@ -212,6 +220,18 @@ def run(res, tier):
                 if err or obj["result"] != "Failure":
                     res.violation({"property": "C13", "kind": "failure-envelope", "case": label, "args": args[:1], "stdout": out[:300], "source": src},
                                   f"{label}: expected one Failure object, got {err or obj['result']}")
+                else:
+                    import re
+                    # source-location details (file name, line) at the head of a message may differ between entry points
+                    reasons[(args[0] == "-s", bool(envx))] = re.sub(r"^\S+:\d+: ", "", str(obj.get("reason")))
+            # a program that has an entry point and raises: every entry point reports what the program raised
+            # (the two wordings for a missing entry point and the file names inside syntax errors legitimately differ)
+            if label in REASONS_MUST_AGREE and len(set(reasons.values())) > 1:
+                res.violation({"property": "C13", "kind": "failure-reason", "case": label, "reasons": {str(k): v for k, v in reasons.items()}, "source": src},
+                              f"{label}: the entry points report different reasons for the same program: {sorted(set(map(str, reasons.values())))}"[:400])
+            if label in REASONS_MUST_AGREE and any("entrypoint function is missing" in str(r) for r in reasons.values()):
+                res.violation({"property": "C13", "kind": "failure-reason", "case": label, "reasons": {str(k): v for k, v in reasons.items()}, "source": src},
+                              f"{label}: the program defines nada_main and raises, but the reported reason says the entry point is missing")
         # no program argument / unsupported argument lists
         for args in ([], ["a.py", "b.py"], ["-x", "y"]):
             rc, out = cli(args, tmp, {})
